@@ -17,14 +17,18 @@ CONSTANTS Caps,       \* capacities to explore: numbers, and NoCap for "unbounde
 BadKeys == {"empty_key", "nonstr_key"}
 ValueClasses == {"short_str", "long_str", "int", "bool", "float", "bytes_ok", "bytes_bad", "seq_same", "seq_none",
                  "seq_mixed", "seq_badtype", "dict_value", "none_value",
-                 "zero_int", "false_bool", "empty_str", "empty_seq"}      \* valid values that happen to be falsy
+                 "zero_int", "false_bool", "empty_str", "empty_seq",      \* valid values that happen to be falsy
+                 "seq_long", "seq_bytes",                                \* sequences whose ELEMENTS need cleaning
+                 "tup_same", "tup_long", "tup_bytes"}                    \* the same, given as a tuple already
 
 Clean(vc) ==
     CASE vc \in {"short_str", "int", "bool", "float", "zero_int", "false_bool", "empty_str"} -> vc
       [] vc = "empty_seq" -> "empty_tuple"
       [] vc = "long_str" -> "cut_str"              \* cut to the value length limit
       [] vc = "bytes_ok" -> "decoded_str"
-      [] vc = "seq_same" -> "tuple_same"
+      [] vc \in {"seq_same", "tup_same"} -> "tuple_same"
+      [] vc \in {"seq_long", "tup_long"} -> "tuple_cut"            \* every element cut to the value length limit
+      [] vc \in {"seq_bytes", "tup_bytes"} -> "tuple_decoded"      \* every element decoded
       [] vc = "seq_none" -> "tuple_with_none"
       [] OTHER -> "reject"                         \* undecodable bytes, mixed / invalid sequences, invalid types, None
 
